@@ -155,35 +155,35 @@ type hEvent struct {
 }
 
 type hTran struct {
-	Thread   int      `json:"thread"`
-	Read     bool     `json:"read,omitempty"`
-	Start    int      `json:"start"`           // checker sequence (update transactions)
-	End      int      `json:"end"`             // 0 = did not commit
-	Result   string   `json:"result"`          // Complete() result, "aborted", or "" for success
+	Thread int    `json:"thread"`
+	Read   bool   `json:"read,omitempty"`
+	Start  int    `json:"start"`  // checker sequence (update transactions)
+	End    int    `json:"end"`    // 0 = did not commit
+	Result string `json:"result"` // Complete() result, "aborted", or "" for success
 	// wall-order ticks (one shared counter): read transactions record the tick
 	// before and after NewReadTran, writers before and after Complete
-	TBefore int64 `json:"tb,omitempty"`
-	TAfter  int64 `json:"ta,omitempty"`
+	TBefore  int64    `json:"tb,omitempty"`
+	TAfter   int64    `json:"ta,omitempty"`
 	Events   []hEvent `json:"events"`
 	Finished bool     `json:"finished"`
 }
 
 type History struct {
-	Program FProgram `json:"program"`
-	Trans   []*hTran `json:"trans"`
+	Program FProgram          `json:"program"`
+	Trans   []*hTran          `json:"trans"`
 	Final   map[string][]hRow `json:"final"` // table -> rows at the end (via index 0)
-	Notes   []string `json:"notes,omitempty"`
+	Notes   []string          `json:"notes,omitempty"`
 }
 
 // ---------------------------------------------------------------- running
 
 type fRunner struct {
-	db        *db19.Database
-	w         *World
-	mu        sync.Mutex
-	trans     []*hTran
-	tick      atomic.Int64
-	fatal     atomic.Value // string: crash / assertion seen by a worker
+	db    *db19.Database
+	w     *World
+	mu    sync.Mutex
+	trans []*hTran
+	tick  atomic.Int64
+	fatal atomic.Value // string: crash / assertion seen by a worker
 }
 
 func hx(s string) string { return hex.EncodeToString([]byte(s)) }
